@@ -23,6 +23,7 @@ import resource
 import shutil
 import subprocess
 import sys
+import threading
 import time
 
 VERIF = os.path.dirname(os.path.abspath(__file__))
@@ -41,6 +42,12 @@ CBMC_BASE = ["--unwinding-assertions", "--pointer-overflow-check", "--signed-ove
 
 MODEL_UNWIND = ["note_edges.0:17", "verif_all_free.0:17", "verif_locks_reset.0:17",
                 "verif_locks_reset.1:17"]
+
+
+CACHE_DIR = None
+CACHE_LOCK = threading.Lock()
+CACHE_KEYS = {}
+CACHE_DONE = set()
 
 
 class Q:
@@ -124,16 +131,31 @@ def build(q, wd, witness):
            "-I" + repo, "-I" + wd] + GLIB_CFLAGS
     defs = dflags(q.defs) + (["-DWITNESS"] if witness else [])
     objs = []
-    jobs = [(os.path.join(VERIF, "harness", q.harness), "h", defs)]
+    hpath = os.path.join(wd, q.harness[4:]) if q.harness.startswith("@wd/") else os.path.join(VERIF, "harness", q.harness)
+    jobs = [(hpath, "h", defs)]
     for e in q.env:
         jobs.append((os.path.join(VERIF, "env", e), "e", defs))
     for s in q.srcs:
         jobs.append((os.path.join(repo, s), "r", dflags(q.repo_defs) + defs))
     for src, kind, d in jobs:
-        o = os.path.join(wd, "%s_%s_%s.gb" % (tag, kind, os.path.basename(src)))
-        rc, out, err, _ = run(["goto-cc", "-std=gnu11", "-c", src, "-o", o] + inc + d, timeout=300)
-        if rc != 0:
-            return None, "compile %s: %s" % (src, (err or out)[-2000:])
+        if kind == "h" or q.scaled:
+            o = os.path.join(wd, "%s_%s_%s.gb" % (tag, kind, os.path.basename(src)))
+            rc, out, err, _ = run(["goto-cc", "-std=gnu11", "-c", src, "-o", o] + inc + d, timeout=300)
+            if rc != 0:
+                return None, "compile %s: %s" % (src, (err or out)[-2000:])
+        else:
+            # env / repo units: compiled once per check run and flag set (rebuilt from the working tree on every run)
+            incc = [i for i in inc if i != "-I" + wd]
+            key = hashlib.sha1(("\0".join([src] + incc + d)).encode()).hexdigest()[:16]
+            o = os.path.join(CACHE_DIR, "%s_%s.gb" % (os.path.basename(src), key))
+            with CACHE_LOCK:
+                lk = CACHE_KEYS.setdefault(key, threading.Lock())
+            with lk:
+                if key not in CACHE_DONE:
+                    rc, out, err, _ = run(["goto-cc", "-std=gnu11", "-c", src, "-o", o] + incc + d, timeout=300)
+                    if rc != 0:
+                        return None, "compile %s: %s" % (src, (err or out)[-2000:])
+                    CACHE_DONE.add(key)
         objs.append(o)
     allgb = os.path.join(wd, tag + "_all.gb")
     rc, out, err, _ = run(["goto-cc", "-o", allgb] + objs, timeout=300)
@@ -437,6 +459,12 @@ def check(pid, tier, only=None, keep=False, verbose=False):
         queries = [q for q in queries if only in q.name]
     known, fixed = load_known()
     known_here = known.get(pid, [])
+    global CACHE_DIR
+    CACHE_DIR = os.path.join(BUILD, pid, "_objcache")
+    if os.path.exists(CACHE_DIR):
+        shutil.rmtree(CACHE_DIR)
+    os.makedirs(CACHE_DIR)
+    CACHE_DONE.clear()
     results = []
     with concurrent.futures.ThreadPoolExecutor(max_workers=JOBS) as ex:
         futs = {ex.submit(run_query, pid, q, tier, keep, verbose): q for q in queries}
@@ -493,6 +521,7 @@ def check(pid, tier, only=None, keep=False, verbose=False):
         if q.expect_fail and st == "pass":
             r["expected_failure_absent"] = True
     wall = time.time() - t0
+    shutil.rmtree(CACHE_DIR, ignore_errors=True)
     # ---------- evidence ----------
     evaluations = sum(1 for r in results if r["status"] in ("pass", "fail", "pass-ptrarith-only"))
     nontrivial = len(set(r["query"] for r in results if r.get("witness") or r["status"] == "fail"))
